@@ -15,6 +15,9 @@ SLOT_OF = {'Conjunction': 'conjunction', 'Disjunction': 'disjunction', 'Implies'
 def check(ix, rep):
     mon = {m.kind: m for m in M.standard_monitors(ix)}['dense-online']
     ops = exh.constructed_operations(ix, mon)
+    # 0. every operation is stepped exactly once per update: a second step appends the same chunk twice to its buffers
+    from sa.rules import step
+    step.check_step(ix, rep, mon)
     # 1. sibling uniformity of the binary operations
     for nc, c in sorted(ops.items()):
         if '.dense_time.' not in c.module.name:
@@ -157,7 +160,8 @@ def check(ix, rep):
         f = c.methods['update']
         rep.undecided('R-OPSUM', f.module.rel, '%s.update' % c.name, 'dense-online:Since', 'carry-over of pending intervals is numeric and not summarised', f.node.lineno)
     explanation = (
-        'Carry-over structure only. R-SIB: the eleven binary dense-time online operations (and/or/implies/iff/xor, + - * / pow log) have '
+        'Carry-over structure only. R-STEP: the update visitor steps every operation object exactly once per update (memo keyed by node name, hit '
+        'decided by membership and not by the truth value of the cached result). R-SIB: the eleven binary dense-time online operations (and/or/implies/iff/xor, + - * / pow log) have '
         'identical __init__ and update after normalisation, up to the kernel function, which must be the one of their own operator; the '
         'common form extends both operand buffers with the new batch and stores both remainders returned by the kernel back. R-ORD: the '
         'online merge kernel satisfies the per-ordering emission/advance contract (13 orderings). R-OPSUM: slot functions, unary value '
